@@ -165,6 +165,22 @@ class QGen:
             q["where"] = self.cond(where_depth)
         if want_order is None:
             want_order = r.chance(1, 3)
+        if want_agg and r.chance(2, 3):
+            gk = r.sample(["ext", "is_dir", "uid", "mode", "dir"], r.range(1, 2))
+            q["group"] = [("field", k) for k in gk]
+            if r.chance(2, 3):
+                q["select"] = [("field", k) for k in (gk if r.chance(3, 4) else gk[:1])] + q["select"]
+            if r.chance(1, 2):
+                k = r.below(4)
+                if k == 0:
+                    key = ("field", gk[0])
+                elif k == 1:
+                    key = q["select"][-1]
+                elif k == 2:
+                    key = ("field", r.choice(["size", "name", "ext", "modified"]))
+                else:
+                    key = ("pos", r.range(1, len(q["select"])))
+                q["order"].append((key, r.choice([None, "asc", "desc"])))
         if want_order and not want_agg:
             for _ in range(r.range(1, 2)):
                 if r.chance(1, 4):
